@@ -105,7 +105,7 @@ def _dw_case(case):
     out = {"failures": fails, "canon": dw.canon(sa), "nontrivial": len(history) > 0,
            "outcome": tuple(round(float(x), 8) for x in base[3].ravel()[:3]), "evals": len(VARIANTS)}
     if case.get("want_events", False):
-        out["events"] = dw.events(sa, c.get("s", 1))
+        out["events"] = dw.events_for(sa, c)
     return out
 
 
